@@ -330,6 +330,23 @@ func c01Histories(out *vu.Out, rng *vu.Rng, n int, focusGrants bool) {
 			if err := cw.k8s.Get(ctx, client.ObjectKeyFromObject(o), prev); err != nil {
 				prev = nil
 			}
+			if prev != nil && r.Chance(1, 5) {
+				// writes that change nothing the controller watches (another writer's status or annotation) move the
+				// resourceVersion on: here up to 9, so that the update that follows takes it from one digit to two
+				for k := 0; k < 10; k++ {
+					cur := o.DeepCopyObject().(client.Object)
+					if err := cw.k8s.Get(ctx, client.ObjectKeyFromObject(o), cur); err != nil {
+						break
+					}
+					if n, err := strconv.Atoi(cur.GetResourceVersion()); err != nil || n >= 9 {
+						break
+					}
+					if err := cw.k8s.Update(ctx, cur); err != nil {
+						break
+					}
+				}
+				_ = cw.k8s.Get(ctx, client.ObjectKeyFromObject(o), prev)
+			}
 			if prev != nil {
 				// the API server bumps metadata.generation when the spec changes
 				pc := prev.DeepCopyObject().(client.Object)
